@@ -423,7 +423,9 @@ func runC10(ctx *core.Ctx, idx int) *core.Result {
 		}
 	}
 	if idx%3 == 0 && idx*c10Batch < c10Cells() {
-		c10FileSweep(ctx, idx, res, c10CellOf(idx*c10Batch))
+		// (a cell picked by the case's random stream: the first cell of the batch has the same package form whenever
+		// idx is a multiple of six, which is when the sweep also goes through the CLI)
+		c10FileSweep(ctx, idx, res, c10CellOf(ctx.Rand("c10sweepcell", idx).Intn(c10Cells())))
 	}
 	if idx%40 == 1 {
 		c10GuardOrder(ctx, idx, res)
